@@ -228,10 +228,17 @@ def ast_to_poly(ast, consts=None, alias=None, array_names=None) -> Poly:
             return Poly.atom(ast_to_str(e))
         if k == "binop":
             op = e[1]
-            if op == "+":
-                return rec(e[2]) + rec(e[3])
-            if op == "-":
-                return rec(e[2]) - rec(e[3])
+            if op in ("+", "-"):
+                # left-nested chains a + b - c + ... of a thousand terms (hub species): walk the spine iteratively
+                terms = []
+                node = e
+                while node[0] == "binop" and node[1] in ("+", "-"):
+                    terms.append((node[1], node[3]))
+                    node = node[2]
+                acc = rec(node)
+                for sign, t in reversed(terms):
+                    acc = acc + rec(t) if sign == "+" else acc - rec(t)
+                return acc
             if op == "*":
                 return rec(e[2]) * rec(e[3])
             if op == "/":
